@@ -66,6 +66,16 @@ def cases(tier, rng):
                 ops += ["feed b " + good, "feed a " + jt, "recv", "recv", "send 4f4b", "wire a", "wire b", "send 4f4b", "wire a", "wire b"]
             out.append("c%d sock REP / %s" % (k, " / ".join(ops)))
             k += 1
+    # a request whose write fails changes nothing but the peer set: the next request goes out (to the next server), a recv
+    # right after the failed send is still out of turn
+    for kind in ("BrokenPipe", "ConnectionReset"):
+        for nxt in ("send", "recv"):
+            ops = ["attach a REP", "attach b REP", "wmode a broken=%s" % kind, "send 7231", "wire b"]
+            if nxt == "recv":
+                ops += ["recv"]
+            ops += ["send 7232", "wire b", "feed b " + W.tok(W.msg([b"", b"ok"])), "recv", "recv", "send 7233", "wire b"]
+            out.append("w%d sock REQ / %s" % (k, " / ".join(ops)))
+            k += 1
     # two connections announcing the same identity: the newer replaces the older; requests and replies stay paired
     for idl in (1, 5, 255):
         ident = W.tok(b"I" * idl)
@@ -103,7 +113,7 @@ def cases(tier, rng):
 
 
 def compare_filter(line):
-    return not line.startswith("d")      # the model assumes distinct identities
+    return not line.startswith(("d", "w"))      # the model assumes distinct identities and has no write faults
 
 
 def norm_impl(o, line):
@@ -161,6 +171,25 @@ def judge(line, obs, orc):
                         return "REQ recv with a closed peer: %s" % tk
                     owing = False
                     gone = True
+    elif kind == "w":
+        toks = [(op, tk) for op, tk in po if op[0] in ("send", "recv", "wire")]
+        first = toks[0][1]
+        if first == "s=ok":
+            # the fault was not hit by this write (rotation started at b): nothing to judge
+            return None
+        i = 2
+        if toks[i][0][0] == "recv":
+            if not toks[i][1].startswith("r=err"):
+                return "recv right after a failed request was accepted: " + toks[i][1]
+            i += 1
+        if toks[i][1] != "s=ok" or toks[i + 1][1] != "wire:b=" + S.enc([b"", b"r2"]):
+            return "after a request whose write failed the next request was not sent to the remaining server: %s %s" % (toks[i][1], toks[i + 1][1][:60])
+        if toks[i + 2][1] != "r=ok:6f6b":
+            return "reply to the second request not returned: " + toks[i + 2][1]
+        if not toks[i + 3][1].startswith("r=err"):
+            return "second recv accepted: " + toks[i + 3][1]
+        if toks[i + 4][1] != "s=ok":
+            return "third request refused: " + toks[i + 4][1]
     elif kind == "d":
         # the request came over connection `who` (the only one that sent anything): if it is returned, the reply must be on that wire
         who = [op[1] for op, tk in po if op[0] == "feed"][0]
